@@ -31,6 +31,8 @@ struct G {
     deferred_case_write: bool,
     /// weights that differ between the three properties
     prop: &'static str,
+    /// CASE handshakes in their last leg (reserved session id, fabric index)
+    pending_hs: Vec<(u32, u8)>,
 }
 
 impl G {
@@ -152,6 +154,22 @@ impl G {
         let s = self.any_sess(v);
         let c07 = self.prop == "C07";
         let c11 = self.prop == "C11";
+        // a CASE handshake in its last leg: the fabric goes away underneath it, then the last ack arrives
+        if !self.pending_hs.is_empty() && self.r.chance(if c07 { 1 } else { 2 }, 6) {
+            let (hsid, hfab) = *self.r.pick(&self.pending_hs);
+            if !v.fabrics.contains(&hfab) || self.r.chance(1, 3) {
+                return format!("hsdone {}", hsid);
+            }
+            return match self.r.below(3) {
+                0 => format!("rmfab {} {}", s, hfab),
+                1 => format!("arm {} 0", s),
+                _ => format!("tick {}", self.r.pick(&[61u64, 121])),
+            };
+        }
+        if !v.fabrics.is_empty() && self.r.chance(if c07 { 1 } else { 1 }, if c07 { 12 } else { 40 }) {
+            let f = *self.r.pick(&v.fabrics);
+            return format!("hs {} {} {}", f, self.node(), self.next_rid());
+        }
         let x = self.r.below(100);
         match x {
             0..=5 => format!("arm {} {}", s, self.r.pick(&[0u64, 0, 1, 60, 65535])),
@@ -215,7 +233,11 @@ impl G {
                 }
             }
             _ => {
-                if c11 && self.r.chance(1, 2) {
+                if c11 && self.r.chance(1, 3) {
+                    "coldreset".into()
+                } else if c11 && self.r.chance(1, 3) {
+                    format!("fabrecover {}", self.r.pick(&[1u64, 1, 2, 3, 200, 255]))
+                } else if c11 && self.r.chance(1, 2) {
                     "freset".into()
                 } else {
                     format!("tick {}", self.r.range(1, 70))
@@ -226,7 +248,7 @@ impl G {
 }
 
 fn gen_case(out: &mut Out, cas: &Rc<Vec<Ca>>, id: u64, seed_rng: &mut Rng, prop: &'static str, len: usize) {
-    let mut g = G { r: seed_rng.fork(), serial: 0, rid: 0, staged: 0, forbidden_crash: Vec::new(), deferred_case_write: false, prop };
+    let mut g = G { r: seed_rng.fork(), serial: 0, rid: 0, staged: 0, forbidden_crash: Vec::new(), deferred_case_write: false, prop, pending_hs: Vec::new() };
     out.case(id, &header());
     let mut w = World::new(cas.clone());
     // how eager this case is to make progress (some cases are mostly noise)
@@ -244,13 +266,26 @@ fn gen_case(out: &mut Out, cas: &Rc<Vec<Ca>>, id: u64, seed_rng: &mut Rng, prop:
         let head = res.split(' ').next().unwrap_or("");
         let after = w.view();
         let kind = op.split(' ').next().unwrap_or("");
+        if kind == "hs" && head.starts_with('s') {
+            let f: u8 = op.split(' ').nth(1).and_then(|x| x.parse().ok()).unwrap_or(0);
+            if let Ok(id) = head[1..].parse::<u32>() {
+                g.pending_hs.push((id, f));
+            }
+        }
+        if kind == "hsdone" {
+            let id: u32 = op.split(' ').nth(1).and_then(|x| x.parse().ok()).unwrap_or(0);
+            g.pending_hs.retain(|x| x.0 != id);
+        }
+        if ["restart", "crash", "corrupt", "coldreset", "fabrecover"].contains(&kind) {
+            g.pending_hs.clear();
+        }
         if kind == "root" && head == "ok" {
             g.staged = op.split(' ').nth(2).and_then(|x| x.parse().ok()).unwrap_or(0);
         }
         if kind == "complete" && head == "ok" && after.kvlen == before.kvlen + 2 {
             g.forbidden_crash.push(before.kvlen as u64 + 1);
         }
-        if ["crash", "corrupt"].contains(&kind) {
+        if ["crash", "corrupt", "coldreset", "fabrecover"].contains(&kind) {
             // the store history was cut: later mutation numbers differ
             let k = after.kvlen as u64;
             g.forbidden_crash.retain(|n| *n < k);
@@ -279,7 +314,7 @@ fn gen_case(out: &mut Out, cas: &Rc<Vec<Ca>>, id: u64, seed_rng: &mut Rng, prop:
                 nt_gone_with_refs = true;
             }
         }
-        if ["restart", "crash", "corrupt", "freset"].contains(&kind) && before.kvlen > 0 {
+        if ["restart", "crash", "corrupt", "freset", "coldreset", "fabrecover"].contains(&kind) && before.kvlen > 0 {
             nt_restart = true;
         }
     }
@@ -304,7 +339,7 @@ fn h_compat(ops: &[String]) -> Vec<String> {
         let w: Vec<&str> = op.split_whitespace().collect();
         let n = |i: usize| -> u64 { w.get(i).and_then(|x| x.parse().ok()).unwrap_or(0) };
         match w.first().copied().unwrap_or("") {
-            "acl" | "grp" | "net" | "rmnet" | "freset" | "corrupt" | "poll" => {}
+            "acl" | "grp" | "net" | "rmnet" | "freset" | "corrupt" | "poll" | "hs" | "hsdone" | "coldreset" | "fabrecover" | "bcw" => {}
             "arm" => {
                 let t = if n(2) == 0 { 0 } else if n(2) < 100 { 61 } else { 122 };
                 res.push(format!("arm {} {}", n(1), t));
